@@ -6,7 +6,7 @@ MODULES = []
 THEOREMS = []
 
 
-# known finding: generated <Dict>BytesInternalReadTL2 reads each element into a local copy (`elem := (*vec)[i]`), so the slice-backed
+# repaired in /repo by 49add7f1 (no longer a listed finding: reported as a violation if it returns): generated <Dict>BytesInternalReadTL2 reads each element into a local copy (`elem := (*vec)[i]`), so the slice-backed
 # dictionary of the []byte variant comes back with empty elements after ReadTL2. Identified by call site.
 BYTES_DICT_TL2_KEY = "bytes-dict-ReadTL2-reads-into-copy:qt_dict.qtpl BytesInternalReadTL2"
 
